@@ -233,6 +233,16 @@ def _outpath(op, root):
     full = os.path.join(root, op["out"])
     if not op.get("relpath"):
         return Path(full)
+    if op["relpath"] == "symlink_dotdot":
+        # <root>/x/lnk is a symbolic link to a SUB-directory of the output directory; 'x/lnk/../name' therefore names
+        # the file in the output directory (the parent of the link's target), not 'x/name'
+        outdir = os.path.dirname(full)
+        os.makedirs(os.path.join(outdir, "deep_sub"), exist_ok=True)
+        os.makedirs(os.path.join(root, "x"), exist_ok=True)
+        lnk = os.path.join(root, "x", "lnk")
+        if not os.path.lexists(lnk):
+            os.symlink(os.path.join(outdir, "deep_sub"), lnk)
+        return Path(os.path.join(lnk, "..", os.path.basename(full)))
     rel = os.path.relpath(full, os.getcwd())
     if op["relpath"] == "dotdot":
         d, b = os.path.split(rel)
